@@ -142,6 +142,37 @@ def find_fact_loads(facts, pred):
     return [f for f in facts if f[0] in ("in", "notin") and pred(f[1])]
 
 
+# ---------------------------------------------------------------- GC0 encapsulation
+def gc0(F, R):
+    """the GC state cannot be written from outside the crate: fields of Sodg are private, Vertex and Persistence are not exported"""
+    sodg = F.adts.get("Sodg")
+    if sodg is None:
+        R.missing("GC0", "struct Sodg")
+        return
+    n = 0
+    for f in sodg["variants"][0]["fields"]:
+        n += 1
+        if f["vis"] == "Public":
+            R.bad("GC0", "GC0/Sodg::%s/public-field" % f["name"], sodg["span"],
+                  "field `%s` of Sodg is public: any user can change group tags, member lists or counters behind the mutators' back" % f["name"])
+    for t in ("Vertex", "Persistence"):
+        a = F.adts.get(t)
+        if a is not None and a["vis"] == "Public":
+            # a public type alone is harmless as long as no public API hands out &mut to it; flag public fields only
+            for v in a["variants"]:
+                for f in v["fields"]:
+                    if f["vis"] == "Public" and t == "Vertex":
+                        R.bad("GC0", "GC0/Vertex::%s/public-field" % f["name"], a["span"], "field `%s` of an exported Vertex is public" % f["name"])
+    # no public method returns a mutable reference into the graph state
+    for b in F.all_bodies():
+        if b.self_adt == "Sodg" and b.vis == "pub" and b.kind == "AssocFn":
+            ret = b.locals[0]["ty"]
+            if "&mut" in ret and any(x in ret for x in ("Vertex", "emap::Map", "microstack::Stack", "micromap::Map")):
+                R.bad("GC0", "GC0/Sodg::%s/returns-mutable-state" % b.name, b.where(), "public method returns %s: callers can edit the GC state" % ret)
+    R.floor("GC0", "fields of Sodg", n, 3)
+    R.ok("GC0", sodg["span"], "all %d fields of Sodg are private and no public method hands out &mut into the graph state" % n)
+
+
 # ---------------------------------------------------------------- GC1 removal sites
 def gc1(F, R):
     c = context(F)
